@@ -154,6 +154,8 @@ func (r *realRepo) cmdFor(t *target) string {
 		return pre + "echo " + t.Const + " > $OUT"
 	case "catn":
 		return pre + "for f in $SRCS; do echo $f; " + catBody + "; done > $OUT"
+	case "catx":
+		return pre + "for f in $SRCS; do " + catBody + "; done > $OUT; chmod +x $OUT"
 	case "opt":
 		return pre + "for f in $SRCS; do " + catBody + "; done > $OUT; if grep -q hello $OUT; then cp $OUT $OUT.extra; fi"
 	}
@@ -296,6 +298,9 @@ func (r *realRepo) tree(t *target) string {
 				return "f:" + hx(string(b)) + "+x:" + hx(string(x))
 			}
 		}
+		if st.Mode()&0o111 != 0 {
+			return "fx:" + hx(string(b))
+		}
 		return "f:" + hx(string(b))
 	}
 	ents, _ := os.ReadDir(p)
@@ -325,6 +330,9 @@ func (r *realRepo) snapshot(s *repoState, order []string) (string, map[string]st
 
 // contentOnly erases entry names from a tree rendering (the class predicate of the directory-hash finding).
 func contentOnly(tree string) string {
+	if strings.HasPrefix(tree, "fx:") {
+		return "\x00mode-x" + decodeHex(tree[3:])
+	}
 	if strings.HasPrefix(tree, "f:") {
 		if i := strings.Index(tree, "+x:"); i >= 0 {
 			return decodeHex(tree[2:i]) + "\x00+x" + decodeHex(tree[i+3:])
@@ -414,8 +422,14 @@ func (g *gen) randomDef(label string, avail []string, out string) *target {
 		} else {
 			t.Kind, t.Const = "text", lib.Pick(g.r, []string{"k1", "line one\nline two\n", "", "v\n"})
 		}
-	case 10, 11:
+	case 10:
 		t.Kind = "catn"
+	case 11:
+		if g.r.Bool() {
+			t.Kind = "catn"
+		} else {
+			t.Kind = "catx"
+		}
 	case 12, 14:
 		t.Kind = "opt"
 	case 13, 15, 16:
@@ -438,7 +452,7 @@ func (g *gen) randomDef(label string, avail []string, out string) *target {
 	default:
 		t.Kind = "cat"
 	}
-	if t.Kind == "cat" || t.Kind == "catfirst" || t.Kind == "catn" || t.Kind == "opt" {
+	if t.Kind == "cat" || t.Kind == "catfirst" || t.Kind == "catn" || t.Kind == "opt" || t.Kind == "catx" {
 		nf := g.r.Intn(3)
 		fs := append([]string{}, filePool...)
 		lib.Shuffle(g.r, fs)
@@ -857,6 +871,9 @@ func runHistory(idx int, ops []string, scratch, plz string) ([]result, []oracleF
 					class := "incremental-differs-from-clean"
 					if contentOnly(lastIncr[l]) == contentOnly(trees[l]) && lastIncr[l] != "missing" {
 						class = "stale-output-dir-hash-ignores-entry-names"
+					} else if strings.TrimPrefix(strings.TrimPrefix(lastIncr[l], "fx:"), "f:") == strings.TrimPrefix(strings.TrimPrefix(trees[l], "fx:"), "f:") &&
+						(strings.HasPrefix(lastIncr[l], "f") && strings.HasPrefix(trees[l], "f")) && !strings.Contains(lastIncr[l], "+x:") && !strings.Contains(trees[l], "+x:") {
+						class = "stale-output-mode-not-hashed" // same bytes, executable bit differs from the clean build
 					} else if i := strings.Index(lastIncr[l], "+x:"); i >= 0 && !strings.Contains(trees[l], "+x:") && lastIncr[l][:i] == trees[l] {
 						class = "stale-optional-output-lingers" // declared output right; an optional output no longer produced is still there
 					}
